@@ -21,7 +21,7 @@ RULE = ("fault enumeration: base scenarios (families mix, storm, deadline, churn
         "missing-facility configuration applicable to the method (epoll_pwait2 ENOSYS/EPERM, timerfd_create ENOSYS mid-run, ppoll ENOSYS mid-run, "
         "epoll_create1, eventfd2, eventfd) x EINTR injected at wait call k (quick k=1..3, thorough every k reached); every log replayed through the "
         "Lean machine and all monitors; plus method selection on random IV_EXCLUDE_POLL_METHOD strings x epoll availability against Ivy.L1.Select. "
-        "plus C09's scenario programs in the three iv_event_raw transports (eventfd2 / old eventfd / pipe fallback) x four methods with C09's oracle. non-trivial = a run in which an injected fault actually fired or a non-default method was selected; distinct by log hash")
+        "plus the enumerated kernel-timer family (vlib/loopgen.py ktimer_cases, 140 scenarios, 4 methods); plus C09's scenario programs in the three iv_event_raw transports (eventfd2 / old eventfd / pipe fallback) x four methods with C09's oracle. non-trivial = a run in which an injected fault actually fired or a non-default method was selected; distinct by log hash")
 
 
 def with_cfg(lines, method, flags, eintr=None):
@@ -95,8 +95,10 @@ def run(tier, seed, proof):
     if not proof["driver_ok"]:
         return res
     rng = random.Random(seed)
-    nb = 14 if tier == "quick" else 70
-    fams = ["mix", "storm", "deadline", "churn", "lifecycle", "tasks", "cycles"]
+    nb = 20 if tier == "quick" else 90
+    # the timer-descriptor state machine (arm after 5 unchanged deadlines, disarm, re-arm) only exists on one method, so deadlines get
+    # every second base
+    fams = ["mix", "deadline", "storm", "deadline", "churn", "deadline", "lifecycle", "deadline", "tasks", "cycles"]
     cases = l1.corpus_cases(PROP)
     for i in range(nb):
         fam = fams[i % len(fams)]
@@ -110,6 +112,7 @@ def run(tier, seed, proof):
                 cases.append((f"{fam}{i}-{loopgen.METHOD_NAME[meth]}-{'+'.join(fl) or 'plain'}", with_cfg(base, meth, fl)))
             for k in ks:
                 cases.append((f"{fam}{i}-{loopgen.METHOD_NAME[meth]}-eintr{k}", with_cfg(base, meth, [], eintr=k)))
+    cases += loopgen.ktimer_cases(seed)
     fired = collections.Counter()
     viol, div = [], []
     with concurrent.futures.ThreadPoolExecutor(max_workers=common.NCPU) as ex:
